@@ -84,8 +84,10 @@ def case_variants(table, limit=4):
     return out
 
 
-def model_specs(custom=True, noop=True, open_patterns=False, chains=False):
+def model_specs(custom=True, noop=True, open_patterns=False, chains=False, hand_noop=False):
     named = [m for m in NAMED if noop or m['name'] != 'noop']
+    if hand_noop:
+        named = named + [{'name': 'noop', 'by_override': True}]      # only where no re-topping / inversion law is involved (decoding, C02/C04/C14)
     if not custom:
         return st.sampled_from(named)
     return st.one_of(st.sampled_from(named), st.sampled_from(named), custom_tables(open_patterns=open_patterns, chains=chains))
